@@ -798,3 +798,11 @@ pub fn replay(sub: &str, case: &Value) -> Result<(), Fail> {
         _ => Err(Fail::new("replay-unknown-sub", sub.to_string())),
     }
 }
+
+pub fn fuzz_targets() -> Vec<crate::fuzz::Target> {
+    use crate::fuzz::from_strategy;
+    vec![
+        from_strategy("c18_peers", "C18", "random", hist_random, check_hist),
+        from_strategy("c18_reentrant", "C18", "broadcast-reentrant", reentrant, check_reentrant),
+    ]
+}
